@@ -22,10 +22,12 @@ class _Continue(Exception):
 
 
 class Interp(object):
-    def __init__(self, env, consts=None, methods=None):
+    def __init__(self, env, consts=None, methods=None, module=None):
         self.env = dict(env)
         self.consts = consts or {}
         self.methods = methods or {}  # name -> FunctionDef of same-class methods that may be inlined (self._m())
+        self.module = module          # pyfront.Module: module-level constants (tuples, dicts) and private functions are resolved lazily
+        self._mod_cache = {}
         self.depth = 0
         self.appends = {}
         self.returned = False
@@ -43,6 +45,18 @@ class Interp(object):
                 return self.env[e.id]
             if e.id in self.consts:
                 return self.consts[e.id]
+            if self.module is not None:
+                if e.id in self._mod_cache:
+                    return self._mod_cache[e.id]
+                v = self.module.module_assign(e.id)
+                if isinstance(v, (ast.Dict, ast.Tuple, ast.List, ast.Constant)):
+                    self._mod_cache[e.id] = ("sym", e.id)
+                    try:
+                        val = self.ev(v)
+                    except AnalysisError:
+                        val = ("sym", e.id)
+                    self._mod_cache[e.id] = val
+                    return val
             return ("sym", e.id)
         if isinstance(e, ast.BoolOp):
             if isinstance(e.op, ast.And):
@@ -80,6 +94,23 @@ class Interp(object):
                 k = "has:" + (pyfront.dotted(elt.func.value) or "?")
                 if k in self.env:
                     return self.env[k]
+        if isinstance(e, ast.Dict):
+            out = {}
+            for k, v in zip(e.keys, e.values):
+                if k is None:
+                    raise AnalysisError("decision table: dict unpacking")
+                kk = self.ev(k)
+                out[tuple(kk) if isinstance(kk, list) else kk] = self.ev(v)
+            return out
+        if isinstance(e, ast.Subscript):
+            base = self.ev(e.value)
+            idx = self.ev(e.slice)
+            idx = tuple(idx) if isinstance(idx, list) else idx
+            if isinstance(base, dict) and idx in base:
+                return base[idx]
+            if isinstance(base, list) and isinstance(idx, int) and -len(base) <= idx < len(base):
+                return base[idx]
+            return ("sym", ast.unparse(e))
         if isinstance(e, ast.IfExp):
             return self.ev(e.body) if self.truth(self.ev(e.test)) else self.ev(e.orelse)
         if isinstance(e, ast.Call):
@@ -88,6 +119,15 @@ class Interp(object):
                 return self._build("<expr>", d, e)
             if d.startswith("self.") and d[5:] in self.methods and self.depth < 4:
                 return self._call_method(self.methods[d[5:]], e)
+            if self.module is not None and d in self.module.functions and "." not in d and d.startswith("_") and self.depth < 4:
+                return self._call_method(self.module.functions[d], e)
+            if isinstance(e.func, ast.Attribute) and e.func.attr == "get" and 1 <= len(e.args) <= 2:
+                base = self.ev(e.func.value)
+                if isinstance(base, dict):
+                    k = self.ev(e.args[0])
+                    k = tuple(k) if isinstance(k, list) else k
+                    if not (isinstance(k, tuple) and k and k[0] == "sym"):
+                        return base.get(k, self.ev(e.args[1]) if len(e.args) == 2 else None)
             if d in ("bool", "int", "str") and len(e.args) == 1:
                 v = self.ev(e.args[0])
                 if not (isinstance(v, tuple) and v and v[0] in ("sym", "obj")):
@@ -314,12 +354,15 @@ class Interp(object):
                 c = s.value
                 if isinstance(c.func, ast.Attribute) and c.func.attr == "append" and isinstance(c.func.value, ast.Name):
                     v = c.args[0]
-                    if isinstance(v, ast.Call):
+                    val = None
+                    if isinstance(v, (ast.Call, ast.Name)):
                         try:
-                            self.ev(v)
+                            val = self.ev(v)
                         except AnalysisError:
-                            pass
+                            val = None
                     name = pyfront.dotted(v) or ast.unparse(v)
+                    if isinstance(v, ast.Name) and isinstance(val, tuple) and len(val) == 2 and val[0] == "sym" and val[1] != v.id:
+                        name = val[1]       # a local holding a named constant: record the constant
                     self.appends.setdefault(c.func.value.id, []).append(name)
                     if isinstance(self.env.get(c.func.value.id), list):
                         self.env[c.func.value.id] = self.env[c.func.value.id] + [name]
